@@ -54,6 +54,10 @@ from pyasn1.type import constraint as _constraint
 SMALL_INT = univ.Integer().subtype(subtypeSpec=_constraint.ValueRangeConstraint(-5, 5))
 
 
+class _Name(str):
+    """A str subclass instance equal to (and hashing like) the plain name."""
+
+
 class OfRun(object):
     """Interprets one history on a real object and on the list model."""
     def __init__(self, setup):
@@ -534,6 +538,10 @@ class RecRun(object):
         o = self.o
         idx = REC_NAMES.index(name)
         val = self.obj_value(name, v)
+        if isinstance(v, int) and v % 2:
+            # a name is a name whatever str subclass spells it (enum members with a str mixin, strings tagged by a loader):
+            # a dict takes it as the same key
+            name = _Name(name)
         if how == 0:
             o.setComponentByName(name, val)
         elif how == 1:
